@@ -36,6 +36,31 @@ pub fn debug_shows_number(dbg: &str, n: u32) -> bool {
     false
 }
 
+/// And(x, True) and And(True, x) mean x (truth value, outputs and order are the same).
+pub fn absorb_true(e: &Expression) -> Expression {
+    use lipe_find_parser::ast::{Operator, Test};
+    use std::rc::Rc;
+    match e {
+        Expression::Operator(op) => match op.as_ref() {
+            Operator::And(a, b) => {
+                let (a, b) = (absorb_true(a), absorb_true(b));
+                if a == Expression::Test(Test::True) {
+                    b
+                } else if b == Expression::Test(Test::True) {
+                    a
+                } else {
+                    Expression::Operator(Rc::new(Operator::And(a, b)))
+                }
+            }
+            Operator::Or(a, b) => Expression::Operator(Rc::new(Operator::Or(absorb_true(a), absorb_true(b)))),
+            Operator::List(a, b) => Expression::Operator(Rc::new(Operator::List(absorb_true(a), absorb_true(b)))),
+            Operator::Not(a) => Expression::Operator(Rc::new(Operator::Not(absorb_true(a)))),
+            Operator::Precedence(a) => Expression::Operator(Rc::new(Operator::Precedence(absorb_true(a)))),
+        },
+        other => other.clone(),
+    }
+}
+
 pub fn compare(text: &str) -> Cmp {
     let (sp, failure) = spec::parse_detail(text);
     if let Spec::Unspecified(why) = &sp {
@@ -96,7 +121,10 @@ pub fn compare(text: &str) -> Cmp {
             }
         }
         (Spec::Ok(want), Ok((opts, tree))) => {
-            if tree != want.tree {
+            // an option inside the expression "behaves there as -true": a tree in which that -true has
+            // been absorbed by the AND it stands in means the same
+            let same_modulo_true = want.inner_options && absorb_true(&tree) == absorb_true(&want.tree);
+            if tree != want.tree && !same_modulo_true {
                 return Cmp::Bad {
                     kind: "wrong-tree".into(),
                     what: format!("tree differs from the reference: expected {:?}, got {:?}", want.tree, tree),
